@@ -31,10 +31,10 @@ def mkCfg (maxQ autoThr : Nat) (ret : Int) (modes tox ontox : String) : Cfg :=
     toxDig := if tox = "s" then some scripted else none
     onToxic := if ontox = "set" then some (fun it => it.content != 0) else none }
 
-def showKV (kv : Nat × Nat) : String :=
-  if 1000 ≤ kv.1 ∧ kv.1 < 1999 then s!"{kv.1}:?" else s!"{kv.1}:{kv.2}"
+def showKV (kv : Nat × Item) : String :=
+  if 1000 ≤ kv.1 ∧ kv.1 < 1999 then s!"{kv.1}:?" else s!"{kv.1}:{kv.2.seq}"
 
-def showBin (b : List (Nat × Nat)) : String :=
+def showBin (b : List (Nat × Item)) : String :=
   showList ((b.mergeSort fun a b => a.1 ≤ b.1).map showKV)
 
 def countTy (s : State) (t : WType) : Nat := (s.items.filter fun it => it.ty = t).length
@@ -44,7 +44,7 @@ def dump (s : State) : String :=
     s!"ing={s.ingested}", s!"dig={s.digested}", s!"rec={s.recycled}",
     "by=" ++ showList ([WType.misfolded, .expired, .failedOp, .orphaned, .toxic].map fun t => toString (countTy s t)),
     "bin=" ++ showBin s.bin,
-    "tox=" ++ showList (s.toxicLog.map toString),
+    "tox=" ++ showList (s.toxicLog.map fun it => toString it.seq),
     s!"rep={s.reported}", s!"auto={s.autoLogged}", s!"em={s.emLogged}", s!"exp={s.expiredRet}" ]
 
 def optInt (s : String) : Option Int := if s = "none" then none else some (intD s)
